@@ -8,7 +8,7 @@
 From Coq Require Import ZArith List Bool.
 Require Import QzBase.Calendar QzBase.GoTime QzBase.Fields.
 Require Import QzCron.Gen.Params QzCron.Gen.CsmSrc QzCron.CsmModel QzCron.SrcEquiv QzCron.NftProofs QzCron.SrcMachine.
-Require Import QzCron.NextFire QzCron.GoTimeLoc QzCron.Gen.CronSrc QzCron.CronSrcEquiv.
+Require Import QzCron.NextFire QzCron.GoTimeLoc QzCron.CronExt QzCron.Gen.CronSrc QzCron.CronSrcEquiv QzCron.NftSrcEquiv QzCron.CsmSpec.
 Import ListNotations.
 Open Scope Z_scope.
 
@@ -119,4 +119,39 @@ Example SrcTie_first_after_example :
   g_firstAfter (mk_time utc_zone 12000) {| z_off0 := 7200; z_trans := [(7000, 3600)] |}
                (mk_time {| z_off0 := 7200; z_trans := [(7000, 3600)] |} 5000)
   = (mk_time {| z_off0 := 7200; z_trans := [(7000, 3600)] |} 8400, true).
+Proof. vm_compute. reflexivity. Qed.
+
+(* (CronTrigger).NextFireTime of quartz/cron.go (Gen/CronSrc.v, translated on every run): for every well-formed
+   expression, every zone table with offsets within +-26 h and EVERY int64 prev, the Go function returns what
+   the model next_fire_time_zone returns (encode: a fire time with the nil error, or (0, ErrTriggerExpired);
+   never the out-of-budget value).  The model is what C01 C02 C06 C14 are stated about.  The state machine of
+   internal/csm is the external function wall_next here (CronExt.v); SrcTie_wall_next above ties its node
+   level to the source. *)
+Theorem SrcTie_next_fire_time : forall f, wf_fields f = true -> forall z, zone_off_ok z -> forall prev, min_nanos <= prev <= max_nanos ->
+  g_NextFireTime {| CronTrigger_fields := f; CronTrigger_location := z |} prev = encode (next_fire_time_zone f z prev).
+Proof. exact src_next_fire_time. Qed.
+Print Assumptions SrcTie_next_fire_time.
+
+(* C01 read off the translated source: a value the Go function returns with a nil error is a whole second
+   strictly after prev whose reading in the location satisfies the expression and is a real date *)
+Theorem SrcTie_C01_on_the_source : forall f z prev ns,
+  wf_fields f = true -> wf_zone z = true -> min_nanos <= prev <= max_nanos ->
+  g_NextFireTime {| CronTrigger_fields := f; CronTrigger_location := z |} prev = Some (ns, 0) ->
+  ns mod nanos = 0 /\ prev < ns <= max_nanos /\
+  exists c, civil_from_unix (offset_at z (ns / nanos)) (ns / nanos) = Some c /\ matches f c = true /\ valid_civil c = true.
+Proof.
+  intros f z prev ns Hwf Hz Hp H.
+  rewrite (src_next_fire_time f Hwf z (wf_zone_off_ok z Hz) prev Hp) in H.
+  destruct (next_fire_time_zone f z prev) as [ns'| |] eqn:E; cbn [encode] in H; try discriminate.
+  injection H as ->. exact (nft_zone_sound_wf f z prev ns Hwf Hz Hp E).
+Qed.
+Print Assumptions SrcTie_C01_on_the_source.
+
+(* non-vacuity: the translated NextFireTime evaluated on "0 15 10 LW * ?" in UTC from 2024-06-01T00:00:00Z:
+   Friday 28 June 2024 10:15:00 UTC *)
+Example SrcTie_next_fire_time_example :
+  g_NextFireTime {| CronTrigger_fields := {| fl_sec := [0]; fl_min := [15]; fl_hour := [10]; fl_dom := [0]; fl_dom_n := 3;
+                                             fl_mon := []; fl_dow := []; fl_dow_n := 0; fl_year := [] |};
+                    CronTrigger_location := fixed_zone 0 |} 1717200000000000000
+  = Some (1719569700000000000, 0).
 Proof. vm_compute. reflexivity. Qed.
